@@ -1,0 +1,104 @@
+//go:build verif
+
+package walker
+
+// Contracts for Walker (property C12: yields every pushed element once - unless revisiting is
+// enabled - in queue order), read by the verification machinery in /verif. Comment-only file.
+//
+// Ghost model: seen[m] = the set of keys of ordered map m (the walker's pushedElements);
+// the walk queue of list l is the window qdata[l][qhead[l] .. qtail[l]) of boxed elements.
+// OrderedMap and container/list are assumed to implement these models (assume-func); what is
+// proved is the walker's own logic on top of them.
+
+/*@
+global seen (Array Int (Array U_T Bool))
+global qdata IntArr2
+global qhead IntArr
+global qtail IntArr
+
+assume-func github.com/iotaledger/hive.go/ds/orderedmap.OrderedMap.Set(m, key, value) (prev, existed)
+  requires m != nil
+  modifies ghost(seen)
+  ensures existed <==> sel(sel(old(seen), m), key)
+  ensures seen == upd(old(seen), m, upd(sel(old(seen), m), key, true))
+assume-func github.com/iotaledger/hive.go/ds/orderedmap.OrderedMap.Has(m, key) (r)
+  requires m != nil
+  ensures r <==> sel(sel(seen, m), key)
+assume-func github.com/iotaledger/hive.go/ds/orderedmap.OrderedMap.Clear(m)
+  requires m != nil
+  modifies ghost(seen)
+  ensures forall k U_T :: !sel(sel(seen, m), k)
+  ensures forall o Int :: o != m ==> sel(seen, o) == sel(old(seen), o)
+assume-func github.com/iotaledger/hive.go/lo.Return2(a, b) (r)
+  ensures r == b
+
+assume-func container/list.List.Len(l) (r)
+  requires l != nil
+  ensures r == sel(qtail, l) - sel(qhead, l)
+assume-func container/list.List.PushBack(l, v) (e)
+  requires l != nil
+  modifies ghost(qdata), ghost(qtail)
+  ensures qtail == upd(old(qtail), l, sel(old(qtail), l) + 1)
+  ensures qdata == upd(old(qdata), l, upd(sel(old(qdata), l), sel(old(qtail), l), v))
+assume-func container/list.List.PushFront(l, v) (e)
+  requires l != nil
+  modifies ghost(qdata), ghost(qhead)
+  ensures qhead == upd(old(qhead), l, sel(old(qhead), l) - 1)
+  ensures qdata == upd(old(qdata), l, upd(sel(old(qdata), l), sel(old(qhead), l) - 1, v))
+assume-func container/list.List.Init(l) (r)
+  requires l != nil
+  modifies ghost(qhead), ghost(qtail)
+  ensures qhead == upd(old(qhead), l, 0) && qtail == upd(old(qtail), l, 0)
+
+func Walker.HasNext
+  requires w != nil && w.stack != nil
+  ensures r0 <==> sel(qtail, w.stack) - sel(qhead, w.stack) > 0 && !w.walkStopped
+
+func Walker.Pushed
+  requires w != nil && w.pushedElements != nil
+  ensures r0 <==> sel(sel(seen, w.pushedElements), element)
+
+-- an element is queued iff it was not pushed before (or revisiting is enabled); it is always
+-- remembered as pushed
+func Walker.Push
+  requires w != nil && w.stack != nil && w.pushedElements != nil
+  modifies ghost(seen), ghost(qdata), ghost(qtail)
+  ensures walker == w
+  ensures sel(sel(seen, w.pushedElements), nextElement)
+  ensures forall k U_T :: k != nextElement ==> (sel(sel(seen, w.pushedElements), k) <==> sel(sel(old(seen), w.pushedElements), k))
+  ensures !sel(sel(old(seen), w.pushedElements), nextElement) || w.revisitElements ==> sel(qtail, w.stack) == sel(old(qtail), w.stack) + 1 && unbox(T, sel(sel(qdata, w.stack), sel(old(qtail), w.stack))) == nextElement && typeof(sel(sel(qdata, w.stack), sel(old(qtail), w.stack))) == typeid(T)
+  ensures sel(sel(old(seen), w.pushedElements), nextElement) && !w.revisitElements ==> sel(qtail, w.stack) == sel(old(qtail), w.stack) && qdata == old(qdata)
+  ensures sel(qhead, w.stack) == sel(old(qhead), w.stack)
+
+-- every element offered to PushFront ends up remembered as pushed (none is skipped)
+func Walker.PushFront
+  requires w != nil && w.stack != nil && w.pushedElements != nil
+  modifies ghost(seen), ghost(qdata), ghost(qhead)
+  loop 1 invariant 0 - 1 <= rangeindex && rangeindex < len(nextElements) && forall j Int :: 0 <= j && j <= rangeindex ==> sel(sel(seen, w.pushedElements), nextElements[j])
+  loop 1 invariant forall k U_T :: sel(sel(old(seen), w.pushedElements), k) ==> sel(sel(seen, w.pushedElements), k)
+  ensures walker == w
+  ensures forall j Int :: 0 <= j && j < len(nextElements) ==> sel(sel(seen, w.pushedElements), nextElements[j])
+
+func Walker.PushAll
+  requires w != nil && w.stack != nil && w.pushedElements != nil
+  modifies ghost(seen), ghost(qdata), ghost(qtail)
+  loop 1 invariant 0 - 1 <= rangeindex && rangeindex < len(nextElements) && forall j Int :: 0 <= j && j <= rangeindex ==> sel(sel(seen, w.pushedElements), nextElements[j])
+  loop 1 invariant forall k U_T :: sel(sel(old(seen), w.pushedElements), k) ==> sel(sel(seen, w.pushedElements), k)
+  ensures walker == w
+  ensures forall j Int :: 0 <= j && j < len(nextElements) ==> sel(sel(seen, w.pushedElements), nextElements[j])
+
+func Walker.StopWalk
+  requires w != nil
+  modifies w.walkStopped
+  ensures w.walkStopped
+
+func Walker.WalkStopped
+  requires w != nil
+  ensures r0 <==> w.walkStopped
+
+func Walker.Reset
+  requires w != nil && w.stack != nil && w.pushedElements != nil
+  modifies w.walkStopped, ghost(seen), ghost(qhead), ghost(qtail)
+  ensures !w.walkStopped && sel(qtail, w.stack) == sel(qhead, w.stack)
+  ensures forall k U_T :: !sel(sel(seen, w.pushedElements), k)
+@*/
